@@ -19,7 +19,8 @@ class PathAbort(Exception):
 class Engine:
     def __init__(self, timeout_s=60):
         self.solver = z3.Solver()
-        self.solver.set("timeout", int(timeout_s * 1000))
+        self._timeout_ms = int(timeout_s * 1000)
+        self.solver.set("timeout", self._timeout_ms)
         self.prefix, self.pos, self.trace = [], 0, []
         self.checks, self.solver_s = 0, 0.0
         self.symbols = {}
@@ -68,7 +69,17 @@ class Engine:
     # ---- solver plumbing
     def _check(self, *assumptions):
         t = time.perf_counter()
-        r = self.solver.check(*assumptions)
+        if getattr(self, "fresh_checks", False):
+            # binary64 queries: z3's incremental core (after push) is orders of magnitude slower than a fresh solver
+            s2 = z3.Solver()
+            s2.set("timeout", self._timeout_ms)
+            s2.add(*self.solver.assertions())
+            s2.add(*assumptions)
+            r = s2.check()
+            if r == z3.sat:
+                self._fresh_model = s2.model()
+        else:
+            r = self.solver.check(*assumptions)
         self.checks += 1
         self.solver_s += time.perf_counter() - t
         return r
@@ -154,10 +165,13 @@ class Engine:
                         neg = z3.Not(ok)
                         bad = self._check(neg)
                     if bad == z3.sat:
-                        if neg is not None:
-                            self.solver.add(neg)
-                            self._check()
-                        m = self.solver.model()
+                        if getattr(self, "fresh_checks", False):
+                            m = self._fresh_model
+                        else:
+                            if neg is not None:
+                                self.solver.add(neg)
+                                self._check()
+                            m = self.solver.model()
                         return dict(verdict="REFUTED", cex=self._model_values(m), paths=paths, reached=reached)
                     if bad == z3.unknown:
                         return dict(verdict="INCONCLUSIVE", detail="solver unknown on the assertion", paths=paths, reached=reached)
@@ -714,11 +728,27 @@ class SFloat:
 
     def __floor__(self):
         r = z3.fpRoundToIntegral(z3.RTN(), self.e)
+        if getattr(self.eng, "fp_int_as_float", False):
+            return SFloat(r, self.eng)
         return SInt(z3.ToInt(z3.fpToReal(r)), self.eng)
 
     def __ceil__(self):
         r = z3.fpRoundToIntegral(z3.RTP(), self.e)
+        if getattr(self.eng, "fp_int_as_float", False):
+            return SFloat(r, self.eng)
         return SInt(z3.ToInt(z3.fpToReal(r)), self.eng)
+
+    def __mod__(self, o):
+        """x % n for an integral, non-negative x below 2^31 and a concrete positive int n (through 32-bit vectors)"""
+        if isinstance(o, int) and not isinstance(o, bool) and o > 0 and getattr(self.eng, "fp_int_as_float", False):
+            b = z3.fpToSBV(z3.RTZ(), self.e, z3.BitVecSort(32))
+            return SFloat(z3.fpSignedToFP(RNE, z3.URem(b, z3.BitVecVal(o, 32)), z3.Float64()), self.eng)
+        raise Unsupported("float % on binary64")
+
+    def __round__(self, nd=None):
+        if nd in (None, 0):
+            return SFloat(z3.fpRoundToIntegral(RNE, self.e), self.eng)
+        raise Unsupported("round(binary64, digits)")
 
     def __trunc__(self):
         r = z3.fpRoundToIntegral(z3.RTZ(), self.e)
